@@ -182,8 +182,12 @@ whether it arises anywhere in the evaluation.  Results:
   `Join` (the reduction itself)  no        `join_canon_full_refuted`, `join_canon_adj_refuted`, `join_canon_partial`
   `Shift(i, n)`, `0 ≤ n`         YES       `shift_canon` (no guard: an insertion moves the keys of
                                            neighbouring parts by jointly injective maps, no rule fires)
-  `Expand(i, n)`, `0 ≤ n`        yes for well-formed locations: `expand_insert_canon_partial`
-                                           (without `wf` neither proved nor refuted)
+  `Expand(i, n)`, `0 ≤ n`        no        `expand_insert_canon_full_refuted` (an EMPTY ambiguous span `1.0`,
+                                           which the parser accepts, turns into a between-site and the K3
+                                           shape arises); yes for well-formed locations:
+                                           `expand_insert_canon_partial`; an empty `Ranged{s,s}` (`5..4`,
+                                           parser only): rules do fire (`expand_insert_empty_ranged_drops`),
+                                           no counterexample in the decided scope
   `Expand(i, n)`, `n < 0`        no        `expand_canon_full_refuted` (a deleted part becomes a
                                            between-site between two equal sites), `expand_canon_partial`
   `Reverse(L)`                   no        `reverse_canon_coords_refuted` (K1: `Between{L}` gets the
@@ -321,9 +325,7 @@ example : canonP (joined [ranged 0 4 false false, ranged 5 7 false false, ranged
 
 /-- **`Expand(i, n)` with `0 ≤ n` on a well-formed location** (every `Ranged` / `Ambiguous` non-empty,
 `Loc.wf`: what `PartialRange` and the parser build): canonical stays canonical, NO K3 guard.
-(FULL statement = the same without `wf`: an empty `Ranged{s, s}` turns into the between-site, a rule
-can fire; neither proved nor refuted, no counterexample among all joins of up to four parts over
-coordinates 0..2.) -/
+(FULL statement = the same without `wf`: REFUTED, `expand_insert_canon_full_refuted` below.) -/
 theorem expand_insert_canon_partial (l : Loc) (i n M : Int) (hc : canonP l = true) (hw : wf l = true)
     (hn : 0 ≤ n) (hle : coordsLe M l = true) (hM : M + n ≤ 4611686018427387904) :
     canonP (expand l i n) = true :=
@@ -335,6 +337,85 @@ example : canonP (joined [ranged 0 10 true false, compl (joined [ranged 30 40 fa
     (expand (joined [ranged 0 10 true false, compl (joined [ranged 30 40 false false, point 20])]) 5 7).beq
       (joined [ranged 0 17 true false, compl (joined [ranged 37 47 false false, point 27])]) = true := by
   refine ⟨by decide, by decide, by decide, by decide⟩
+
+/-- FULL STATEMENT for an insertion (false on the model, and on the code — replayed: `loc.expand
+(J (P 0) (A 0 0) (P 0)) 1 1` answers `(J (P 0) (P 0))` on both sides): "`Expand(i, n)` with `0 ≤ n` keeps
+every canonical location canonical", i.e. `expand_insert_canon_partial` without `wf`.  Witness
+`join(1,1.0,1)`: the middle part is the EMPTY ambiguous span `Ambiguous{0, 0}`, which no rule of `Push`
+looks at, so the join is a fixed point of `Join` (canonical, and `ParseLocation` reads exactly it from that
+text: `expand_insert_witness_parsed`).  `Ambiguous.Expand(1, 1)` computes `start == end` and answers
+`Between(0)`; the parts `1, 0^1, 1` are the K3 shape (`join(4,3^4,4)`): the point replaces the between-site
+and `join(1,1)` is left, which is written as such and read back as `1`.  The insertion point and amount do
+not matter (any `n ≥ 1`: an empty span becomes a between-site under every `Expand` with `n ≠ 0`). -/
+theorem expand_insert_canon_full_refuted :
+    ¬ (∀ (l : Loc) (i n M : Int), canonP l = true → 0 ≤ n → coordsLe M l = true →
+        M + n ≤ 4611686018427387904 → canonP (expand l i n) = true) := by
+  intro h
+  have := h (joined [point 0, ambiguous 0 0, point 0]) 1 1 0 (by decide) (by decide) (by decide) (by decide)
+  revert this
+  decide
+
+/-- the witness spelled out: canonical, not well formed, the K3 guard is raised, `join(1,1)` comes out; and
+it is what `ParseLocation` makes of the text `join(1,1.0,1)` -/
+theorem expand_insert_witness_parsed :
+    canonP (joined [point 0, ambiguous 0 0, point 0]) = true ∧
+    wf (joined [point 0, ambiguous 0 0, point 0]) = false ∧
+    expandK3 (joined [point 0, ambiguous 0 0, point 0]) 1 1 = true ∧
+    (expand (joined [point 0, ambiguous 0 0, point 0]) 1 1).beq (joined [point 0, point 0]) = true ∧
+    printB (joined [point 0, ambiguous 0 0, point 0]) = str "join(1,1.0,1)" ∧
+    parseLocation (str "join(1,1.0,1)") = .ok (joined [point 0, ambiguous 0 0, point 0], []) := by
+  have hp : printB (joined [point 0, ambiguous 0 0, point 0]) = str "join(1,1.0,1)" := by decide +kernel
+  refine ⟨by decide, by decide, by decide, by decide, hp, ?_⟩
+  rw [← hp]
+  exact parse_print _ (by decide)
+
+/-- **Can an empty `Ranged{s, s}` be built at all?**  `PartialRange` / `Range` panic on `end <= start`, and
+every edit operation goes through them or keeps a non-empty span non-empty (`Loc.wf` is closed under the
+edits: `expand_ins`, `normalize_mod`, …).  The one constructor that does NOT check is the PARSER:
+`parseRange` (and `parseAmbiguous`) fill the struct literal from the two numbers they read, so the text
+`5..4` is `Ranged{4, 4}` — empty — and `5..3` is `Ranged{4, 3}`; both are canonical, so they are written
+and read back as themselves.  A record READ from a file can hold one; a record built through the
+constructors cannot (the struct types are exported, so a literal `gts.Ranged{4, 4, …}` can).  What the
+edits then do with it is outside the domain of every check ("ranges with Start >= End are outside the
+domain"): `Ranged.Reverse` and the split branch of `Ranged.Normalize` go through `PartialRange` and PANIC
+(`loc.reverse (R 4 4 0 0) 10` on the code; the model, total there, answers `(R 6 6 0 0)`), and
+`Normalize(Ranged{4, 4}, 10)` is `join(5..10,1..4)` on both sides — the empty range becomes the whole
+circle. -/
+theorem empty_ranged_from_parser :
+    parseLocation (str "5..4") = .ok (ranged 4 4 false false, []) ∧
+    parseLocation (str "5..3") = .ok (ranged 4 3 false false, []) ∧
+    parseLocation (str "1.0") = .ok (ambiguous 0 0, []) ∧
+    canonP (ranged 4 4 false false) = true ∧ wf (ranged 4 4 false false) = false := by
+  have h1 : printB (ranged 4 4 false false) = str "5..4" := by decide +kernel
+  have h2 : printB (ranged 4 3 false false) = str "5..3" := by decide +kernel
+  have h3 : printB (ambiguous 0 0) = str "1.0" := by decide +kernel
+  refine ⟨?_, ?_, ?_, by decide, by decide⟩
+  · rw [← h1]; exact parse_print _ (by decide)
+  · rw [← h2]; exact parse_print _ (by decide)
+  · rw [← h3]; exact parse_print _ (by decide)
+
+/-- **What an empty `Ranged{s, s}` does under an insertion** (the case the note at
+`expand_insert_canon_partial` left open).  It turns into the between-site `Between(s')` under every `Expand`
+with `n ≠ 0` that does not insert exactly at `s` (there it becomes the inverted `Ranged{s + n, s}`), and
+then rules of `Push` DO fire — so the argument of `expand_insert_canon_partial` ("an insertion moves the keys
+of neighbouring parts by jointly injective maps, no rule fires") does not extend to it: `join(1,2..1)` is
+canonical, `Expand(2, 1)` makes the parts `1, 1^2`, and the between-site behind the point is DROPPED.  What
+fires is a dropping rule, and the result `1` is canonical.  For a K3 shape the between-site would have to
+stand in front of a point / range start with its own coordinate, and the canonical original excludes that
+(`Point{p}` / `Between{p}` / `…End = p` in front of `Ranged{p, p}` is reduced, and so is `Point{p}` / `Between{p}` /
+`Ranged{p, …}` behind it).  Decided scope, `#eval`: every canonical join of up to four parts over points,
+between-sites, ALL `Ranged{s, e}` (empty and inverted included) and non-empty ambiguous spans with
+coordinates 0..3 that holds an empty or inverted `Ranged` (388960 joins), `i` in 0..4, `n` in 1..2: the
+result is canonical every time.  Not proved beyond that scope. -/
+theorem expand_insert_empty_ranged_drops :
+    canonP (joined [point 0, ranged 1 1 false false]) = true ∧
+    (expandList [point 0, ranged 1 1 false false] 2 1).length = 2 ∧
+    (expand (ranged 1 1 false false) 2 1).beq (between 1) = true ∧
+    (expand (ranged 1 1 false false) 0 1).beq (between 2) = true ∧
+    (expand (ranged 1 1 false false) 1 1).beq (ranged 2 1 false false) = true ∧
+    (expand (joined [point 0, ranged 1 1 false false]) 2 1).beq (point 0) = true ∧
+    canonP (expand (joined [point 0, ranged 1 1 false false]) 2 1) = true := by
+  decide
 
 /-- FULL STATEMENT for `Reverse`, coordinate clause (false, known finding K1): "a canonical location
 inside a sequence of `L` residues (`coordsWithin`) stays canonical under `Reverse(L)`".
